@@ -205,3 +205,40 @@ def ctor_forwarding(prog: Program, ci) -> Tuple[List[str], List[Tuple[int, str]]
         else:
             fwd.append(name)
     return sorted(fwd), problems
+
+
+def decorator_protocol_problems(prog: Program, reg_m: FuncInfo) -> List[str]:
+    """A method usable both as `@m` and as `@m(...)`: the inner decorator returns its argument on every path; the outer returns the
+    inner decorator when called without a subject and the decorated subject (`decorator(subject)`) otherwise."""
+    inner = [g for g in reg_m.nested.values() if isinstance(g.node, (ast.FunctionDef, ast.AsyncFunctionDef))]
+    probs_d = []
+    if len(inner) != 1:
+        probs_d.append(f'{len(inner)} inner decorators')
+    else:
+        dec = inner[0]
+        subj = dec.params[0].arg if dec.params else None
+        rets = [x for x in walk_own(dec.node) if isinstance(x, ast.Return)]
+        falls_off = not rets
+        if falls_off or any(x.value is None or dotted(x.value) != subj for x in rets):
+            probs_d.append(f'the inner decorator does not return the {subj} it decorates on every path')
+        inner_nodes = {id(y) for y in ast.walk(dec.node)}
+        outer_rets = [x for x in walk_own(reg_m.node) if isinstance(x, ast.Return) and id(x) not in inner_nodes]
+        first = reg_m.params[1].arg if len(reg_m.params) > 1 else None
+        kinds_ = set()
+        from ..flow import Flow as _FlowD
+        from ..util import stmt_node_of as _sno
+        cfg_d = CFG(reg_m, prog)
+        fl_d = _FlowD(cfg_d)
+        for x in outer_rets:
+            n_x = _sno(cfg_d, x.value) if x.value is not None else None
+            leaves = [al.expr for al in fl_d.alts(n_x, x.value)] if (n_x is not None and x.value is not None) else [x.value]
+            for v in leaves:
+                if isinstance(v, ast.Name) and v.id == dec.name:
+                    kinds_.add('decorator')
+                elif isinstance(v, ast.Call) and isinstance(v.func, ast.Name) and v.func.id == dec.name and [dotted(a) for a in v.args] == [first]:
+                    kinds_.add('decorated')
+                else:
+                    probs_d.append(f'`{norm(x)[:50]}` returns neither the decorator nor the decorated {first}')
+        if not probs_d and kinds_ != {'decorator', 'decorated'}:
+            probs_d.append(f'only the form(s) {sorted(kinds_)} are returned')
+    return probs_d
